@@ -35,7 +35,10 @@ func init() {
 			if err := printer.Fprint(&b, fset, n); err != nil {
 				failShape("cannot print node: %v", err)
 			}
-			return strings.Join(strings.Fields(b.String()), " ")
+			// one line, single spaces; line breaks inside an argument list leave "( x" / "x )" behind
+			out := strings.Join(strings.Fields(b.String()), " ")
+			out = strings.ReplaceAll(strings.ReplaceAll(out, "( ", "("), " )", ")")
+			return strings.ReplaceAll(out, ",)", ")")
 		}
 
 		// --- the marker constant
